@@ -135,7 +135,7 @@ int main(int argc, char** argv)
 	static const char* suiteName[] = { "c03_hashset", "c03_hashmap", "c03_hashopen", "c03_hashold" };
 	Suite s(c, suiteName[C03_PART], "model ledger");
 	Rec& r = rec(); r.c = &c; r.s = &s; r.family = suiteName[C03_PART];
-	unsigned H = c.thorough ? 300 : 30, N = c.thorough ? 140 : 80;
+	unsigned H = c.thorough ? 200 : 30, N = c.thorough ? 120 : 80;
 	using namespace momo;
 #define SET(E, B, stored) HashSet<E, LTraits<E, B, stored>, LedgerMM, HashSetItemTraits<E, LedgerMM>, NoExtraS>, LedgerMM, LTraits<E, B, stored>, false
 #define MAP(K, V, B, stored) HashMap<K, V, LTraits<K, B, stored>, LedgerMM, HashMapKeyValueTraits<K, V, LedgerMM>, NoExtraM>, LedgerMM, LTraits<K, B, stored>, true
